@@ -126,7 +126,11 @@ def prog_heuristic(env, case):
     tag = "C11:" + case['id']
     from PEPit import Expression, Point
     recs = {}
+    heur = spec.pop('heuristic', 'trace')
+    from vf.props import c14
+    c14._watch_events()
     for backend in ('cvxpy', 'mosek'):
+        del c14._WEIGHTS[:]
         if env.sym:
             CvxStub(env, prefix=backend[0]).install()
             MosekStub(env, prefix=backend[0]).install()
@@ -136,7 +140,8 @@ def prog_heuristic(env, case):
         m = pipeline.build(env, spec)
         tol = env.real("tol", lo=0)
         tau, err = _solve(env, m, backend, tag + ":" + backend, return_primal_or_dual='primal',
-                          dimension_reduction_heuristic='trace', tol_dimension_reduction=tol)
+                          dimension_reduction_heuristic=heur, tol_dimension_reduction=tol,
+                          **({} if heur == 'trace' else dict(eig_regularization=env.real("reg", lo=0, lo_strict=True))))
         if err:
             return "raised"
         w = m.pep.wrapper
@@ -151,10 +156,17 @@ def prog_heuristic(env, case):
         # declared: original rows + (wc - tol) - objective <= 0
         exp, lmis = c05.declared(m)
         sense, of, oc = rec['objective']
-        ref = dict(kind='eq', form={('G', i, i): 1 for i in range(n)}, const=0)
+        if heur == 'trace':
+            ref = dict(kind='eq', form={('G', i, i): 1 for i in range(n)}, const=0)
+        else:
+            # logdet iterations: both back-ends must minimise <W, G> for the weight matrix the PEP passed last
+            W = c14._WEIGHTS[-1]
+            ref = dict(kind='eq', form={('G', i, j): (W[i, i] if i == j else W[i, j] + W[j, i])
+                                        for i in range(n) for j in range(i, n)}, const=0)
         env.check(sense == 'min' and sdp.same_row(env, ref, dict(kind='eq', form=of, const=oc), prove=True),
-                  "after the trace heuristic the objective recorded through %s is not 'minimise trace(G)': %s %s"
-                  % (backend, sense, {str(k): str(v) for k, v in of.items()}), signature=tag + ":%s:objective" % backend)
+                  "after the %s heuristic the objective recorded through %s is not 'minimise %s': %s %s"
+                  % (heur, backend, 'trace(G)' if heur == 'trace' else '<last weight, G>', sense,
+                     {str(k): str(v) for k, v in list(of.items())[:4]}), signature=tag + ":%s:objective" % backend)
         missing, extra = sdp.match_rows(env, exp, rec['rows'])
         env.check(not missing, "after the heuristic a declared constraint is no longer in the %s problem: %s"
                   % (backend, [sdp.describe(r) for r in missing[:2]]), signature=tag + ":%s:lost-rows" % backend)
@@ -299,6 +311,7 @@ def cases(tier):
     add("function-lmi-and-user-lmi", lmis=['one'], function_lmi=True, function_lmi_with_constraint=True)
     add("convex-prox", fclass='convex', steps=['prox'], metrics=2)
     add("heuristic-gd", kind='heuristic')
+    add("heuristic-logdet2-gd", kind='heuristic', heuristic='logdet2')
     add("heuristic-lmi", kind='heuristic', lmis=['sym2'])
     add("heuristic-qg", kind='heuristic', fclass='qg', stationary=False)
     add("heuristic-negative-optimum", kind='heuristic', fclass='sc', stationary=False, negative=True)
